@@ -37,6 +37,20 @@ MutatedLong == LET b == ValidStreams[1].bytes IN
 ArbStreams == LET all == Strs(RawLen) \o Mutated \o Truncated \o MutatedLong IN [i \in 1..Len(all) |-> [bytes |-> all[i], nmsg |-> -1, msgs |-> <<>>]]
 MCStreams == IF Arbitrary THEN ArbStreams ELSE ValidStreams
 
+(***************************************************************************)
+(* Refinement: the receiver (with its bytes) implements the integer window *)
+(* machine IoWindow, whose inductive invariant Apalache establishes for    *)
+(* every capacity / alignment / chunk / message size.  TLC checks the      *)
+(* refinement mapping on the permissive instances: every step of IoRecv is *)
+(* a step of IoWindow or leaves its variables unchanged, and every         *)
+(* reachable state satisfies IoWindow's IndInv -- so the unbounded result  *)
+(* is about this specification and not about a look-alike.                 *)
+(***************************************************************************)
+W == INSTANCE IoWindow WITH Cap <- Cap, A <- Align(MsgT), ws <- ws, we <- we, rd <- rd, consumed <- consumed,
+                            guard <- IF rpc = "guard" THEN cur ELSE 0
+WindowIndInv == W!IndInv
+RefinesWindow == [][W!Next]_<<ws, we, rd, consumed, IF rpc = "guard" THEN cur ELSE 0>>
+
 Header(i) == [k |-> "iostream", id |-> MsgId, si |-> i, bytes |-> MCStreams[i].bytes, msgs |-> MCStreams[i].msgs,
               nmsg |-> MCStreams[i].nmsg, maxlen |-> MML, cap |-> BufCap]
 EmitHeaders == \A i \in DOMAIN MCStreams : PrintT(<<"CASE", ToJson(Header(i))>>)
